@@ -92,3 +92,6 @@ func specStrAt(s string, i int) byte {
 	}
 	return 0
 }
+
+// gvcSameMap: a and b are the same map object (maps cannot be compared in Go).
+func gvcSameMap[K comparable, V any](a, b map[K]V) bool { panic("ghost") }
